@@ -21,8 +21,8 @@ type cenv struct {
 	pkg    *types.Package
 	decls  map[types.Object]*ast.FuncDecl
 	inits  map[types.Object]ast.Expr
-	byText map[string]constant.Value       // concrete values by expression text ("attr.Name")
-	byObj  map[types.Object]constant.Value // concrete values of variables
+	byText map[string]constant.Value          // concrete values by expression text ("attr.Name")
+	byObj  map[types.Object]constant.Value    // concrete values of variables
 	tables map[types.Object]*ast.CompositeLit // variables / parameters standing for a constant table
 	depth  int
 }
